@@ -102,7 +102,17 @@ pub async fn accept_loop<F>(
 {
     add_thread_local_log_tag("thread_name", "accept_loop");
     loop {
-        let token = token_set.async_wait_token().await;
+        // Stop waiting for a token when the permit is revoked,
+        // so that shutdown completes even when all tokens are held by connections.
+        let Some(token) =
+            FutureExt::or(async { Some(token_set.async_wait_token().await) }, async {
+                (&mut permit).await;
+                None
+            })
+            .await
+        else {
+            return;
+        };
         if permit.is_revoked() {
             return;
         }
